@@ -214,7 +214,7 @@ impl Check for SnapshotCheck {
         "C03"
     }
     fn budget(&self, tier: &str) -> usize {
-        if tier == "thorough" { 60_000 } else { 2500 }
+        if tier == "thorough" { 250_000 } else { 8_000 }
     }
     fn gen_case(&self, seed: u64, _idx: usize, _tier: &str, avoid: &[String]) -> Case {
         let mut rng = Rng::new(seed, "workload");
@@ -586,7 +586,7 @@ impl Check for DeadlockCheck {
         "C35"
     }
     fn budget(&self, tier: &str) -> usize {
-        if tier == "thorough" { 60_000 } else { 3000 }
+        if tier == "thorough" { 150_000 } else { 5_000 }
     }
     fn gen_case(&self, seed: u64, _idx: usize, _tier: &str, avoid: &[String]) -> Case {
         let mut rng = Rng::new(seed, "workload");
